@@ -65,7 +65,7 @@ uint32_t density_sketch<T, K, A>::get_dim() const {
 
 template<typename T, typename K, typename A>
 bool density_sketch<T, K, A>::is_empty() const {
-  return num_retained_ == 0;
+  return n_ == 0;
 }
 
 template<typename T, typename K, typename A>
@@ -307,6 +307,8 @@ density_sketch<T, K, A> density_sketch<T, K, A>::deserialize(std::istream& is, c
     levels.push_back(lvl);
     num_to_read -= lvl.size();
   }
+  // a sketch whose compactions dropped every point has n > 0 and no retained points: keep level 0
+  if (levels.empty()) levels.push_back(Level(allocator));
 
   if (num_to_read != 0)
     throw std::runtime_error("Error deserializing sketch: Incorrect number of items read");
@@ -374,6 +376,8 @@ density_sketch<T, K, A> density_sketch<T, K, A>::deserialize(const void* bytes, 
     levels.push_back(lvl);
     num_to_read -= lvl.size();
   }
+  // a sketch whose compactions dropped every point has n > 0 and no retained points: keep level 0
+  if (levels.empty()) levels.push_back(Level(allocator));
 
   if (num_to_read != 0)
     throw std::runtime_error("Error deserializing sketch: Incorrect number of items read");
